@@ -632,8 +632,34 @@ func c18Ecdsa(co *caseOut, in c18xInput) {
 
 func c18xGenerate(co *caseOut, r *rng, cf *commonFlags) {
 	n := cf.n
+	// Merkle roots: every length 0..40, random and repeated hashes. (Each costs many SHA-256 inside Coq: the cases are
+	// spread over the run, between the cheap ones, so that they do not end up in one shard of the parallel evaluation.)
+	var merkleQ []c18xInput
+	for l := 0; l <= 40; l++ {
+		var hs []string
+		for i := 0; i < l; i++ {
+			if i > 0 && r.chance(15) {
+				hs = append(hs, hs[r.intn(i)])
+			} else {
+				hs = append(hs, hx(r.bytes(32)))
+			}
+		}
+		if cf.tier == "quick" && l > 12 && l%4 != 1 && l != 40 && l != 32 && l != 33 && l != 31 {
+			continue // the quick tier keeps every length up to 12, then the odd/even and power-of-two boundaries
+		}
+		merkleQ = append(merkleQ, c18xInput{Hashes: hs})
+	}
+	popMerkle := func() {
+		if len(merkleQ) > 0 {
+			c18xRun(co, "merkle", merkleQ[len(merkleQ)-1])
+			merkleQ = merkleQ[:len(merkleQ)-1]
+		}
+	}
 	// Base58 / Base58Check
 	for i := 0; i < n/3+12; i++ {
+		if i%3 == 0 {
+			popMerkle()
+		}
 		l := pick(r, []int{0, 1, 2, 5, 20, 21, 25, 33, 38, 45})
 		b := r.bytes(l)
 		for j, z := 0, pick(r, []int{0, 0, 1, 2, 5, l}); j < z && j < l; j++ {
@@ -691,7 +717,10 @@ func c18xGenerate(co *caseOut, r *rng, cf *commonFlags) {
 	for i := 0; i < n/8; i++ {
 		vals = append(vals, int64(r.next())>>uint(r.intn(64)))
 	}
-	for _, v := range vals {
+	for vi, v := range vals {
+		if vi%3 == 0 {
+			popMerkle()
+		}
 		c18xRun(co, "fixed8_str", c18xInput{Z: fmt.Sprint(v)})
 		c18xRun(co, "fixed8_fromstr", c18xInput{S: sp(fixedn.Fixed8(v).String())})
 		for _, prec := range []int{0, 1, 8, 16, 18} {
@@ -743,20 +772,8 @@ func c18xGenerate(co *caseOut, r *rng, cf *commonFlags) {
 		}
 		c18xRun(co, "uint_dec", c18xInput{N: l, Mode: r.intn(3), S: sp(s)})
 	}
-	// Merkle roots: every length 0..40, random and repeated hashes
-	for l := 0; l <= 40; l++ {
-		var hs []string
-		for i := 0; i < l; i++ {
-			if i > 0 && r.chance(15) {
-				hs = append(hs, hs[r.intn(i)])
-			} else {
-				hs = append(hs, hx(r.bytes(32)))
-			}
-		}
-		if cf.tier == "quick" && l > 12 && l%4 != 1 && l != 40 && l != 32 && l != 33 && l != 31 {
-			continue // the quick tier keeps every length up to 12, then the odd/even and power-of-two boundaries
-		}
-		c18xRun(co, "merkle", c18xInput{Hashes: hs})
+	for len(merkleQ) > 0 {
+		popMerkle()
 	}
 	// multi-signature configurations: repeated keys, invalid signatures, every m <= n <= 7, plus malformed keys
 	nm := n/3 + 20
